@@ -144,6 +144,8 @@ structure PassOut where
   store : Params.Store
   ok : Bool
   seenFull : Bool
+  /-- the query cache of the RequestValidationInput after the pass -/
+  view : Params.Store := []
   /-- byte tokens → decoded value, for the bodies installed so far -/
   table : List (Stream.Bytes × Option Body.J)
 
@@ -169,18 +171,18 @@ def evalBody (su : Setup) (table : List (Stream.Bytes × Option Body.J)) (fresh 
 def runPass (su : Setup) (n : Nat) (view : Params.Store) (r : Stream.Req) (st : Params.Store) (table : List (Stream.Bytes × Option Body.J)) : PassOut :=
   let (r1, secOK, seen) := Stream.secPhase su.hasFunc r su.reqs
   let seenFull := seen.all (fun x => x == Stream.readAll r)
-  if !secOK && !su.multi then { req := r1, store := st, ok := false, seenFull := seenFull, table := table }
+  if !secOK && !su.multi then { req := r1, store := st, ok := false, seenFull := seenFull, view := view, table := table }
   else
-    let (st1, pOK) := Params.paramsPhaseCached su.skip su.multi view su.params st
-    if !pOK && !su.multi then { req := r1, store := st1, ok := false, seenFull := seenFull, table := table }
+    let (view1, st1, pOK) := Params.paramsPhaseCached su.skip su.multi view su.params st
+    if !pOK && !su.multi then { req := r1, store := st1, ok := false, seenFull := seenFull, view := view1, table := table }
     else if su.hasBodySpec && !su.excludeBody then
       let fresh : Stream.Bytes := List.replicate (su.origBytes.length + n) n
       let newVal := match r1.body with
         | some data => (evalBody su table fresh data).2
         | none => none
       let (r2, bOK) := Stream.bodyPhase su.required (fun d => (evalBody su table fresh d).1) r1
-      { req := r2, store := st1, ok := secOK && pOK && bOK, seenFull := seenFull, table := (fresh, newVal) :: table }
-    else { req := r1, store := st1, ok := secOK && pOK, seenFull := seenFull, table := table }
+      { req := r2, store := st1, ok := secOK && pOK && bOK, seenFull := seenFull, view := view1, table := (fresh, newVal) :: table }
+    else { req := r1, store := st1, ok := secOK && pOK, seenFull := seenFull, view := view1, table := table }
 
 def bodyObs (su : Setup) (p : PassOut) (incomingCLok : Bool) : Json :=
   let bytes := Stream.readAll p.req
@@ -245,7 +247,7 @@ def handle (j : Json) : Json :=
   let p1 := runPass su 1 st0 r0 st0 [(origBytes, origVal)]
   -- the next handler reads the body; the second validation sees what it would see (and, when the same
   -- RequestValidationInput is used again, the query cache of the first validation)
-  let p2 := runPass su 2 (if reuse then st0 else p1.store) p1.req p1.store p1.table
+  let p2 := runPass su 2 (if reuse then p1.view else p1.store) p1.req p1.store p1.table
   -- spec
   let bodyActive := su.hasBodySpec && !su.excludeBody && su.ctypeOK && bodyText.isSome
   let specBody : Json := match su.schema, origVal with
@@ -262,10 +264,7 @@ def handle (j : Json) : Json :=
        (if bodyActive && !skip && (Body.hasNullProp v || !Body.cleanDefaults s) then ["NullReplaced"] else []) ++
        (if bodyActive && !skip && Body.BranchShift ctx s v then ["BranchShift"] else [])
      | _, _ => []) ++
-    (if su.params.any (fun p => Params.EmptyPresent skip p st0) then ["EmptyPresent"] else []) ++
-    (if su.params.any (fun p => Params.UntypedDefault skip p) then ["UntypedDefault"] else []) ++
-    (if su.params.any (fun p => Params.SprintArrayDefault skip p st0) then ["SprintArrayDefault"] else []) ++
-    (if su.params.any (fun p => Params.StaleQueryCache reuse skip p st0) then ["StaleQueryCache"] else [])
+    (if su.params.any (fun p => Params.DefaultReadsAsEmpty skip p st0) then ["DefaultReadsAsEmpty"] else [])
   let anyReq := fun (f : Stream.Scheme → Bool) => reqs.any (fun q => q.any f)
   let branches := dedup (
     (if reuse then ["opt.reuseInput"] else []) ++
